@@ -18,7 +18,7 @@ git apply /tmp/wt/_patch_$$.diff
 T=$(PYTHONPATH=$WT /venv/bin/python -m pytest -q -p no:cacheprovider --deselect tests/test_poly.py::test_basic --deselect tests/test_poly.py::test_degree 2>&1 | tail -1)
 (cd /tmp && PYTHONPATH=$WT timeout 300 /venv/bin/python "$MD/demo.py" >/dev/null 2>&1); D1=$?
 echo "tests-with-patch: $T | demo-with-patch exit=$D1 | demo-without exit=$D0"
-cd /verif
+cd "$(dirname "$(readlink -f "${BASH_SOURCE[0]}")")/.."
 if [ "${INPLACE:-0}" = "1" ]; then
   git -C /repo apply "$MD/patch.diff" || { echo "APPLY-FAILED in /repo"; exit 3; }
   RUN=""
